@@ -94,17 +94,21 @@ def run_property(prop, tier, seed, only=None, jobs=16, keep_going=True):
             # needs a configuration outside this tier's set: add the smallest one
             ok = [tuple(sorted(m["requires"]))]
         mode = m.get("configs", "all")
-        if mode == "one":
+        if mode in ("one", "rich"):
             ok = ok[-1:]          # the richest compatible configuration
         elif mode == "first":
             ok = ok[:1]
         for c in ok:
-            key = (c, m.get("fsa"), m.get("unwindset"))
+            key = (c, m.get("unwindset"))
             groups.setdefault(key, []).append(m)
     results = []       # (meta, cfg, result)
     violations, inconclusive, known_hits = [], [], []
     known = load_known()
-    for (cfg, fsa, uws), metas in sorted(groups.items(), key=lambda kv: (kv[0][0], str(kv[0][1]), str(kv[0][2]))):
+    for (cfg, uws), metas in sorted(groups.items(), key=lambda kv: (kv[0][0], str(kv[0][1]))):
+        # one invocation per configuration: the field-sensitivity bound is the largest any of
+        # its harnesses needs (a larger bound never loses precision)
+        fsas = [m.get("fsa") for m in metas if m.get("fsa")]
+        fsa = max(fsas) if fsas else None
         names = ["%s::%s" % (mod, m["name"]) for m in metas]
         tmo = max(m["timeout"] for m in metas)
         res, out, wall, cerr = kani.run_group(prop, cfg, names, fsa=fsa, unwindset=uws, jobs=jobs, timeout=tmo, log=log)
